@@ -201,7 +201,7 @@ def to_recipe(decls, steps, only_names=None, declare=(), hostile=None, subs=None
     created = {creates(s) for s in steps if creates(s)}
     declared = [n for n in objs if n in used and n not in created]
     if declared:
-        r.uses(*[objs[n] for n in declared])
+        declare_in_some_form(r, [objs[n] for n in declared], len(steps) + 3 * len(declared))
     handles = {n: objs[n] for n in declared}
     open_stage, closed = None, []
     for s in steps:
@@ -214,6 +214,26 @@ def to_recipe(decls, steps, only_names=None, declare=(), hostile=None, subs=None
         if hostile is not None and hostile.random() < 0.45:
             refused_attempt(r, handles, hostile, open_stage, closed, subs)
     return r, handles
+
+
+def declare_in_some_form(r, objects, k):
+    """`Recipe.uses` accepts objects and iterables of objects in any mixture: every spelling declares all of them."""
+    n = len(objects)
+    form = k % 6
+    M.bucket(f'C16/uses_form/{form}')
+    if form == 0 or n == 1 and form in (3, 4):
+        r.uses(*objects)
+    elif form == 1:
+        r.uses(list(objects))
+    elif form == 2:
+        for o in objects:
+            r.uses(o)
+    elif form == 3:
+        r.uses(list(objects[:n // 2]), *objects[n // 2:])          # an iterable first, plain objects after it
+    elif form == 4:
+        r.uses(objects[0], tuple(objects[1:]))
+    else:
+        r.uses((o for o in objects[:1]), list(objects[1:])) if n > 1 else r.uses(iter(objects))
 
 
 HOSTILE_KINDS = ['stage_open', 'stage_dup', 'end_wrong', 'dup_container', 'dup_uses', 'dup_solution', 'dup_solution_from',
@@ -720,8 +740,18 @@ def append_remove_chain(rng, prog):
         d_ = rng.choice(conts)
         chain = [([d_['name'], None], R.ENZYME), ([d_['name'], None], R.LIQUID), ([d_['name'], None], R.SOLID)]
         rng.shuffle(chain)
+        liq_ = liquids(prog['subs'])[0]
+        if rng.random() < 0.6 and (d_['max'] is None):
+            # wash cycles: the same substance is removed from the same container more than once (refilled in between)
+            chain = [([d_['name'], None], R.LIQUID), ('fill', d_['name'], liq_, '300 mL'), ([d_['name'], None], liq_),
+                     ('fill', d_['name'], liq_, '250 mL'), ([d_['name'], None], R.LIQUID)]
+            M.bucket('C17/recipe/remove_chain/wash_cycles')
         M.bucket('C17/recipe/remove_chain/container')
-    for k, (ref, w_) in enumerate(chain):
+    for k, item in enumerate(chain):
+        if item[0] == 'fill':
+            steps.append({'op': 'fill_to', 'dst': [item[1], None], 'solvent': item[2], 'q': item[3]})
+            continue
+        ref, w_ = item
         steps.append({'op': 'start_stage', 'name': f'zc{k}'})
         steps.append({'op': 'remove', 'dst': ref, 'what': w_})
         steps.append({'op': 'end_stage', 'name': f'zc{k}'})
@@ -1118,7 +1148,11 @@ def check_c15(prog, pdesc, rs, r, res, ledger, case, handles):
             plate = is_plate(res[nme])
             solvent_container_only = all(
                 rs[k]['op'] == 'solution' and isinstance(rs[k]['solvent'], str) and rs[k]['solvent'] == nme for k in ks)
-            for unit in rnd.sample(['uL', 'mL', 'mg', 'g', 'umol', 'mol', 'U', 'nL', 'kL', 'ng', 'dag', 'cmol', 'nmol'], 4):
+            for unit_arg in rnd.sample(['uL', 'mL', 'mg', 'g', 'umol', 'mol', 'U', 'nL', 'kL', 'ng', 'dag', 'cmol', 'nmol', None, None], 4):
+                # unit=None: the documented default, the configured volume display unit
+                unit = unit_arg if unit_arg is not None else cf.volume_display_unit
+                if unit_arg is None:
+                    M.bucket('C15/default_unit')
                 prec = cf.precision(unit)
                 half = 0.5 * 10.0 ** (-prec) * 1.000001
                 p_, base = R.split_unit(unit)
@@ -1135,7 +1169,8 @@ def check_c15(prog, pdesc, rs, r, res, ledger, case, handles):
                         exp = 0.0 if not plate else None
                     M.count('C15.remaining')
                     try:
-                        got = r.get_amount_remaining(obj, tf, unit, mode)
+                        got = (r.get_amount_remaining(obj, tf, unit, mode) if unit_arg is not None
+                               else r.get_amount_remaining(obj, tf, mode=mode))
                         gexc = None
                     except (MonitorBug, InjectedFault):
                         raise
@@ -1174,7 +1209,7 @@ def check_c15(prog, pdesc, rs, r, res, ledger, case, handles):
                     eout = eout + numpy.maximum(-d, 0)
                 M.count('C15.flows')
                 try:
-                    got = r.get_container_flows(obj, tf, unit)
+                    got = r.get_container_flows(obj, tf, unit) if unit_arg is not None else r.get_container_flows(obj, tf)
                     gexc = None
                 except (MonitorBug, InjectedFault):
                     raise
@@ -1209,7 +1244,10 @@ def check_c15(prog, pdesc, rs, r, res, ledger, case, handles):
                             miss = miss + numpy.maximum(total_unit(ledger[k].get(nme), unit) - total_unit(ledger[k + 1].get(nme), unit), 0)
                         if bool(numpy.all(numpy.abs(go + miss - eout) <= tol + 1e-9 * numpy.abs(eout))):
                             mech = 'C15:solvent_container_of_create_solution_not_recorded:outflow_missing'
-                    M.violate(['C15'], 'LEDGER', mech, dict(detail, got={'in': gi.tolist(), 'out': go.tolist()},
+                    # what a remove step discards is outflow (C17's trash link): a wrong outflow over a timeframe in which
+                    # this object was removed from also refutes C17
+                    rm_here = bad == 'outflow' and any(rs[k]['op'] == 'remove' and rs[k]['dst'][0] == nme for k in ks)
+                    M.violate(['C15', 'C17'] if rm_here else ['C15'], 'LEDGER', mech, dict(detail, got={'in': gi.tolist(), 'out': go.tolist()},
                                                             expected={'in': numpy.asarray(ein).tolist(), 'out': numpy.asarray(eout).tolist()}))
                     continue
                 M.note_nontrivial('C15', ('flow', nme, tf, unit, repr(pdesc)[:1200]))
@@ -1242,6 +1280,8 @@ def check_c17_trash(prog, pdesc, rs, r, res, ledger, case, handles):
         others = [nme for nme in names if nme != t]
         for s in prog['subs']:
             removed = amount(ledger[a].get(t), s) - amount(ledger[a + 1].get(t), s)
+            if not R.is_enzyme(s):
+                removed = R.canon(s, removed) / 1e-6        # stored amount -> umol under any moles storage unit
             unit = 'U' if R.is_enzyme(s) else 'umol'
             tol = 0.5 * 10.0 ** (-cf.precision(unit)) * 1.000001 + abs(removed) * 1e-9 + 1e-6
             if others:
@@ -1253,7 +1293,7 @@ def check_c17_trash(prog, pdesc, rs, r, res, ledger, case, handles):
                 if isinstance(got, Exception) or abs(got - removed) > tol:
                     M.violate(['C17', 'C09'], 'LEDGER', 'C17:discarded_amount_ne_substance_used:' +
                               ('container' if not plate else 'plate_part' if sel is not None else 'plate_whole'),
-                              {'substance': s.name, 'removed_storage_units': removed, 'reported': repr(got)[:100],
+                              {'substance': s.name, 'removed_umol_or_U': removed, 'reported': repr(got)[:100],
                                'stage': tf, 'program': pdesc})
                 elif removed > 0:
                     M.note_nontrivial('C17', ('trash', s.name, tf, repr(pdesc)[:1500]))
